@@ -32,6 +32,7 @@ def _load(pid: str):
 
 def run_shard(pid: str, tier: str, seed: int, shard: int, nshards: int) -> dict:
     from . import harness  # sets up repo import, clock, entropy
+    from . import interleave
     mod = _load(pid)
     ctx = verdict.Ctx(pid, mod.LEVEL, tier, seed, shard, nshards)
     harness.seed_entropy(seed * 1000 + shard)
@@ -42,6 +43,7 @@ def run_shard(pid: str, tier: str, seed: int, shard: int, nshards: int) -> dict:
         if hasattr(mod, "setup"):
             mod.setup(ctx)
         debug_every = getattr(mod, "DEBUG_LOGGING_EVERY", 5)
+        history = getattr(mod, "PROCESS_HISTORY", True)
         n_case = 0
         for key, case in mod.generate(ctx, rng):
             if not ctx.mine(key):
@@ -51,6 +53,16 @@ def run_shard(pid: str, tier: str, seed: int, shard: int, nshards: int) -> dict:
             # configuration dimension: every k-th case runs with msmart's loggers at DEBUG (into a null handler), which
             # makes every debug-only code path (argument evaluation, isEnabledFor branches) part of the execution
             ctx.debug_logging = bool(debug_every) and n_case % debug_every == 0
+            # configuration dimension: the process has done other, unrelated things with the library before this case
+            # (mv/interleave.py); a deterministic subset of the cases: 3, 10, 17, ... for the first 40, then every 101st
+            ctx.preamble = None
+            if history and ((n_case % 7 == 3 and n_case < 280) or n_case % 101 == 50):
+                ctx.preamble = seed * 100003 + n_case
+                ctx.bump("cases-preceded-by-other-library-activity")
+                saved = dict(harness.REACH.counts)       # reach counters describe the check's own workload only
+                ctx.bump("other-activity:" + interleave.other_activity(ctx.preamble))
+                harness.REACH.counts.clear()
+                harness.REACH.counts.update(saved)
             try:
                 if ctx.debug_logging:
                     with harness.debug_logging():
@@ -180,6 +192,9 @@ def replay(pid: str, path: str) -> int:
     if hasattr(mod, "setup"):
         mod.setup(ctx)
     ctx.current_case = case
+    if rec.get("preamble") is not None:
+        from . import interleave
+        interleave.all_activities(int(rec["preamble"]))
     if rec.get("debug_logging"):
         with harness.debug_logging():
             mod.run_case(ctx, case)
